@@ -69,6 +69,8 @@ SOFT_RULES = {
     "ORDER-TRAV", "SIB-ITER", "EXH-2", "SIB-FILTER", "COPY-LINEAR", "FMT", "RENDER", "SIB-EXPORT", "DIFF", "FS", "GEN", "SEARCH",
     "PARENT-WALK", "KIND-BRANCH", "SORT-GUARD", "EXH-5", "LIMIT", "REGEX-FULL", "RANGE-GUARD", "EXIST-CMP", "DATAID-DEF", "ITER-NORET",
     "FRAME", "STALE-ALIAS",
+    # rules that were derived from individual seeded changes and look at one construct each
+    "UNIQ-SCOPE", "SLOT-NEW", "REC-FWD", "MOVE-ORDER", "ALIAS-ARG", "PRED-NORM", "GUARD-TREE", "DATA-IS",
 }
 
 
@@ -193,7 +195,12 @@ def run_rule(ctx: Ctx, rd: RuleDef) -> List[Ob]:
         where = f"{tb[-1].filename.split('/')[-1]}:{tb[-1].lineno}" if tb else "?"
         raise AnalysisError(f"rule {rd.name} could not analyse this shape ({type(e).__name__}: {e} at {where})") from e
     n = sum(1 for o in obs if not o.note or o.undecided)
-    if n < rd.floor and not (rd.soft and any(o.undecided for o in obs)):
+    if n < rd.floor and rd.soft:
+        if not any(o.undecided for o in obs):
+            obs.append(ctx.tri(rd.name, rd.props, "package", f"{rd.name}: the constructs this rule reads", None, None,
+                               f"{n} instances recognised, {rd.floor} on the reference tree: some construct this rule reads was reshaped"))
+        return obs
+    if n < rd.floor:
         raise AnalysisError(
             f"rule {rd.name}: {n} instances matched, below the hand-confirmed floor {rd.floor} "
             "(a rule matching too few sites would pass vacuously)"
